@@ -265,7 +265,7 @@ fn triple(r: &CliRun) -> String {
 
 pub fn run(ctx: &mut Ctx) {
     let sets = catalogue();
-    ctx.rule = "file-set catalogue (valid, interdependent, lexical/syntax/semantic faults, mixtures, empty, missing, dangling symlink, sub-directory, foreign extension, undecodable bytes) x every presentation (file list in every argument order; directory; every split into directory + listed files with the directory first or last) x {check, echo, tokenize} on the real binary; distinct = distinct (set, presentation, command)".into();
+    ctx.rule = "file-set catalogue (valid, interdependent, lexical/syntax/semantic faults, mixtures, empty, missing, dangling symlink, sub-directory, foreign extension, undecodable bytes) x every presentation (file list in every argument order; directory; every split into directory + listed files with the directory first or last) x {check, echo, tokenize} on the real binary; plus a sweep over the number of diagnostics (one file with k faults, k faulty files); distinct = distinct (set, presentation, command)".into();
     ctx.assumptions.push("the binary is built from /repo without the verif feature; each run has its own TMPDIR; stderr is parsed after stripping ANSI colour codes".into());
     ctx.assumptions.push("`check dir` is compared with `check <files>` by verdict and multiset of codes (positions and order are not compared)".into());
     let scratch = Scratch::new("c13");
@@ -351,9 +351,154 @@ pub fn run(ctx: &mut Ctx) {
         }
     }
     ctx.states = total;
+
+    // (4) count sweep: the contract must not depend on how many diagnostics there are (an exit status
+    // is 8 bits wide; counters and buffers have sizes). One file with k independent faults for every k
+    // in 0..=520 and a few larger counts, per kind of fault; k faulty files in one directory for the
+    // counts around 256 and 512.
+    let mut sweep: Vec<(String, usize, String)> = vec![]; // (kind, k, text)
+    let mut counts: Vec<usize> = (0..=520).collect();
+    counts.extend([767, 768, 1023, 1024, 1025, 4096]);
+    for &k in &counts {
+        let mut t = String::from("TYPE\n");
+        t.push_str("  Ok0 : INT(0..1);\n");
+        for i in 0..k {
+            t.push_str(&format!("  R{} : INT(10..1);\n", i));
+        }
+        t.push_str("END_TYPE\n");
+        sweep.push(("semantic-faults-in-one-file".into(), k, t));
+        let mut t = String::from("FUNCTION_BLOCK F\nVAR a : INT; END_VAR\n");
+        for _ in 0..k {
+            t.push_str("  a := 1; ?\n");
+        }
+        t.push_str("END_FUNCTION_BLOCK\n");
+        sweep.push(("lexical-faults-in-one-file".into(), k, t));
+    }
+    let sweep_res: Vec<(usize, CliRun, CliRun)> = sweep
+        .par_iter()
+        .enumerate()
+        .map(|(n, (_, _, text))| {
+            let dir = scratch.sub(&format!("sw{}", n));
+            let tmp = scratch.sub(&format!("swt{}", n));
+            let path = dir.join("f.st");
+            std::fs::write(&path, text).unwrap();
+            let c = cli::run(&["check", path.to_str().unwrap()], &tmp, Duration::from_secs(60));
+            let t = cli::run(&["tokenize", path.to_str().unwrap()], &tmp, Duration::from_secs(60));
+            let _ = std::fs::remove_dir_all(&dir);
+            (n, c, t)
+        })
+        .collect();
+    for (n, c, t) in &sweep_res {
+        let (kind, k, _) = &sweep[*n];
+        ctx.evaluations += 2;
+        ctx.transitions += 2;
+        ctx.traces += 2;
+        ctx.distinct(&format!("sweep|{}|{}", kind, k));
+        let replay = json!({"mode":"count-sweep","kind":kind,"count":k,"check":c.summary()});
+        let ok_exit = c.exit == Some(0);
+        let consistent = if ok_exit { c.has_ok_line && c.diags.is_empty() } else { !c.has_ok_line && !c.diags.is_empty() };
+        if c.crashed() || t.crashed() {
+            ctx.fail(&format!("count-sweep/{}#crashed", kind), &format!("{} diagnostics expected: check {} tokenize {}", k, c.summary(), t.summary()), replay.clone());
+        } else if !consistent || ok_exit != (*k == 0) {
+            ctx.fail(&format!("count-sweep/{}#{}", kind, triple(c)), &format!("a file with {} faults: `check` gives {} (expected {})", k, triple(c), if *k == 0 { "exit 0 with OK" } else { "a non-zero exit status with diagnostics" }), replay.clone());
+        }
+        let lexical = kind.starts_with("lexical");
+        if !t.crashed() && (t.exit == Some(0)) != (!lexical || *k == 0) {
+            ctx.fail(&format!("count-sweep/{}#tokenize-exit-{}", kind, t.exit.unwrap_or(-1)), &format!("a file with {} faults: `tokenize` exits {:?}", k, t.exit), replay.clone());
+        }
+    }
+    let mut dir_jobs = vec![];
+    for k in [1usize, 2, 255, 256, 257, 511, 512, 513] {
+        for listed in [false, true] {
+            dir_jobs.push((k, listed));
+        }
+    }
+    let dir_res: Vec<(usize, bool, CliRun)> = dir_jobs
+        .par_iter()
+        .map(|(k, listed)| {
+            let dir = scratch.sub(&format!("swd{}-{}", k, listed));
+            let tmp = scratch.sub(&format!("swdt{}-{}", k, listed));
+            let mut args = vec!["check".to_string()];
+            std::fs::write(dir.join("good.st"), "FUNCTION_BLOCK G\nVAR a : INT; END_VAR\n a := 1;\nEND_FUNCTION_BLOCK\n").unwrap();
+            for i in 0..*k {
+                let p = dir.join(format!("bad{:04}.st", i));
+                std::fs::write(&p, format!("FUNCTION_BLOCK B{}\nVAR a : INT; END_VAR\n a := ;\nEND_FUNCTION_BLOCK\n", i)).unwrap();
+                if *listed {
+                    args.push(p.to_string_lossy().to_string());
+                }
+            }
+            if *listed {
+                args.push(dir.join("good.st").to_string_lossy().to_string());
+            } else {
+                args.push(dir.to_string_lossy().to_string());
+            }
+            let a: Vec<&str> = args.iter().map(|x| x.as_str()).collect();
+            let r = cli::run(&a, &tmp, Duration::from_secs(120));
+            let _ = std::fs::remove_dir_all(&dir);
+            (*k, *listed, r)
+        })
+        .collect();
+    for (k, listed, c) in &dir_res {
+        ctx.evaluations += 1;
+        ctx.transitions += 1;
+        ctx.traces += 1;
+        ctx.distinct(&format!("sweep-dir|{}|{}", k, listed));
+        let consistent = c.exit != Some(0) && !c.has_ok_line && !c.diags.is_empty() && !c.crashed();
+        if !consistent {
+            ctx.fail(
+                &format!("count-sweep/faulty-files-{}#{}", if *listed { "listed" } else { "in-a-directory" }, triple(c)),
+                &format!("{} files with a syntax error and one valid file: `check` gives {}", k, c.summary()),
+                json!({"mode":"count-sweep","kind": if *listed { "files-listed" } else { "files-in-directory" },"count":k}),
+            );
+        }
+    }
+    ctx.bounds.insert("count_sweep".into(), json!("k faults in one file for k = 0..520, 767, 768, 1023, 1024, 1025, 4096 (semantic: subrange limits; lexical: invalid character) through check and tokenize; k = 1, 2, 255..257, 511..513 faulty files as a directory and as a list"));
 }
 
 pub fn replay(case: &Value) -> Result<String, String> {
+    if case["mode"] == json!("count-sweep") {
+        let k = case["count"].as_u64().ok_or("count")? as usize;
+        let kind = case["kind"].as_str().ok_or("kind")?;
+        let scratch = Scratch::new("c13r");
+        let dir = scratch.sub("d");
+        let tmp = scratch.sub("t");
+        let mut args = vec!["check".to_string()];
+        if kind.starts_with("files") {
+            for i in 0..k {
+                let p = dir.join(format!("bad{:04}.st", i));
+                std::fs::write(&p, format!("FUNCTION_BLOCK B{}\nVAR a : INT; END_VAR\n a := ;\nEND_FUNCTION_BLOCK\n", i)).unwrap();
+                if kind == "files-listed" {
+                    args.push(p.to_string_lossy().to_string());
+                }
+            }
+            if kind != "files-listed" {
+                args.push(dir.to_string_lossy().to_string());
+            }
+        } else {
+            let mut t = String::new();
+            if kind.starts_with("semantic") {
+                t.push_str("TYPE\n  Ok0 : INT(0..1);\n");
+                for i in 0..k {
+                    t.push_str(&format!("  R{} : INT(10..1);\n", i));
+                }
+                t.push_str("END_TYPE\n");
+            } else {
+                t.push_str("FUNCTION_BLOCK F\nVAR a : INT; END_VAR\n");
+                for _ in 0..k {
+                    t.push_str("  a := 1; ?\n");
+                }
+                t.push_str("END_FUNCTION_BLOCK\n");
+            }
+            let p = dir.join("f.st");
+            std::fs::write(&p, t).unwrap();
+            args.push(p.to_string_lossy().to_string());
+        }
+        let a: Vec<&str> = args.iter().map(|x| x.as_str()).collect();
+        let c = cli::run(&a, &tmp, Duration::from_secs(120));
+        let ok_exit = c.exit == Some(0);
+        let consistent = if ok_exit { c.has_ok_line && c.diags.is_empty() } else { !c.has_ok_line && !c.diags.is_empty() };
+        return if consistent && ok_exit == (k == 0) && !c.crashed() { Ok(format!("consistent: {}", c.summary())) } else { Err(format!("{} faults: {}", k, c.summary())) };
+    }
     // re-materialise the named set/presentation and re-judge the consistency triple
     let set_name = case["set"].as_str().ok_or("set")?;
     let label = case["presentation"].as_str().ok_or("presentation")?;
